@@ -67,7 +67,7 @@ def make_cfg(base, dest, constants=None, invariants=None, properties=None):
 REPLAY_RE = re.compile(r'^<<"(REPLAY|META|[A-Z]+)", (".*")>>\s*$')
 
 
-def run_tlc(module, cfg, wd, workers=8, timeout=900, simulate=None, heap="8g", extra=None, deadlock=False):
+def run_tlc(module, cfg, wd, workers=8, timeout=900, simulate=None, heap="8g", extra=None, deadlock=False, env_extra=None):
     """Run TLC; returns dict(stats, records: {tag: [json...]}, out: path)."""
     out_path = os.path.join(wd, module + ".out")
     md = os.path.join(wd, "md-" + module)
@@ -84,7 +84,7 @@ def run_tlc(module, cfg, wd, workers=8, timeout=900, simulate=None, heap="8g", e
     t0 = time.time()
     with open(out_path, "w") as f:
         try:
-            p = subprocess.run(cmd, stdout=f, stderr=subprocess.STDOUT, cwd=SPEC, timeout=timeout, env=ENV)
+            p = subprocess.run(cmd, stdout=f, stderr=subprocess.STDOUT, cwd=SPEC, timeout=timeout, env=dict(ENV, **(env_extra or {})))
         except subprocess.TimeoutExpired:
             raise ToolError("TLC timed out after %ds on %s" % (timeout, module))
     wall = time.time() - t0
